@@ -8,9 +8,13 @@ func init() {
 			rulePublishBeforeWake(c, "C02.3")
 			ruleHeaderPublication(c, "C02.4")
 			ruleHeadersBeforeData(c, "C02.5")
+			ruleHeadersOnce(c, "C02.5b")
 			ruleMetadataAccumulation(c, "C02.6")
 			ruleNilMapWrite(c, "C02.7")
 			ruleStringTaint(c, "C02.8")
+			ruleLookAhead(c, "C02.9")
+			ruleInvokeShape(c, "C02.9b")
+			ruleWatcher(c, "C02.10")
 		},
 		Explain: "Static necessary conditions of exact status/metadata delivery: value flow of the handler's error into close_stream and of the received status/trailers into the client's terminal marker (with the nil/context-error mapping table); first-writer-wins marker with all publication dominated by the CAS success edge; publish-before-wake ordering in the client finishing function; header publication before its signal and once-guarded; headers no later than the first message; Join accumulation and whole-map/whole-slice converters; request metadata = outgoing metadata + every credentials pair, installed unconditionally on the server; no possibly-nil map written; metadata values reaching a proto3 string without validation (known finding F-4). All paths; no bound on inputs or schedules.",
 		Assume: []string{"status.FromError/FromProto/Proto/Err and metadata.Join/Copy behave as documented", "protobuf round trip preserves status details and metadata"},
@@ -27,6 +31,7 @@ func init() {
 			ruleServerCancel(c, "C07.4", "C07.7")
 			ruleSingleOutcome(c, "C07.5")
 			ruleLateFramesInert(c, "C07.6")
+			ruleClientIDs(c, "C07.8a", "C07.8b", "C07.8")
 		},
 		Explain: "Static necessary conditions of per-RPC cancellation: a watcher on the stream's own context calls cancel-stream with that context's error on every successfully created stream; the code mapping table; the cancel frame is emitted only by the CAS winner, from its own goroutine, with the local receiver cancelled; the server's cancel case reaches the stream context cancel on every path, and that cancel precedes the write mutex (no loop/handler deadlock); single outcome by CAS; late frames for disposed ids are inert on both ends.",
 		Assume: []string{"context cancellation semantics", "atomic.Pointer CAS semantics"},
